@@ -95,6 +95,8 @@ pub fn g() -> &'static G {
 }
 
 thread_local! {
+    /// number of chunk-file events (create/write/sync/trunc/unlink) issued by this thread
+    static TL_EVENTS: Cell<u64> = const { Cell::new(0) };
     /// set while harness-internal code runs on this thread: hooks pass through
     static BYPASS: Cell<bool> = const { Cell::new(false) };
     static IS_WORKER: Cell<Option<bool>> = const { Cell::new(None) };
@@ -111,6 +113,14 @@ impl Drop for BypassGuard {
     fn drop(&mut self) {
         BYPASS.with(|b| b.set(self.0));
     }
+}
+
+pub fn thread_events() -> u64 {
+    TL_EVENTS.try_with(|c| c.get()).unwrap_or(0)
+}
+
+fn bump_thread_events() {
+    let _ = TL_EVENTS.try_with(|c| c.set(c.get() + 1));
 }
 
 fn bypass() -> bool {
@@ -434,6 +444,7 @@ enum Act {
 }
 
 fn decide(kind: &str, id: u64, buf: Option<&[u8]>) -> Act {
+    bump_thread_events();
     if is_worker_thread() {
         {
             let st = g().m.lock().unwrap();
@@ -683,6 +694,7 @@ fn do_open(
         return unsafe { real(path, flags, mode) };
     };
     let _b = BypassGuard::new();
+    bump_thread_events();
     let r = unsafe { real(path, flags, mode) };
     let saved = unsafe { *libc::__errno_location() };
     {
